@@ -31,7 +31,7 @@ LEVEL_NOTE = ("Trusted base: sim/world.py (switches only at synchronisation poin
 QUICK_WORKERS = 4
 WORKERS = 14
 
-FLAVOURS = ('reconnect', 'replace', 'control', 'requests', 'trash', 'two_sessions', 'keyspace_sync', 'control_fail', 'trash_convict', 'trash_lenient', 'reconnect_cancel', 'control_sched')
+FLAVOURS = ('reconnect', 'replace', 'control', 'requests', 'trash', 'two_sessions', 'keyspace_sync', 'control_fail', 'trash_convict', 'trash_lenient', 'reconnect_cancel', 'control_sched', 'requests3')
 INF = 10 ** 9
 
 K_TRASH = "trashed-connection-never-closed-by-hostconnection-shutdown"
@@ -90,7 +90,7 @@ def run_history(seed, variant, k):
     rng = random.Random(seed)
     random.seed(seed)
     ch = InjectChooser(random.Random(seed * 13 + 5), k, rng.choice([0.0, 0.05, 0.15]))
-    addrs = ['127.0.0.1', '127.0.0.2'] + (['127.0.0.3'] if flavour == 'control_fail' else [])
+    addrs = ['127.0.0.1', '127.0.0.2'] + (['127.0.0.3'] if flavour in ('control_fail', 'requests3') else [])
     env = SimEnv(ch, addresses=addrs, max_virtual_time=600.0)
     w = env.world
     if flavour.startswith('trash'):
@@ -247,7 +247,21 @@ def run_history(seed, variant, k):
                 return
             hosts = dict((h.endpoint.address, h) for h in cluster.metadata.all_hosts())
             h2 = hosts.get('127.0.0.2')
-            if flavour == 'requests':
+            if flavour == 'requests3':
+                # three hosts, requests in flight on every pool (answered late or never): closing one pool's connection fails its requests while the
+                # other pools are still to be shut down
+                for a_ in ('127.0.0.1', '127.0.0.2', '127.0.0.3'):
+                    request(session, host=hosts.get(a_), act=('hold', 0.4))
+                    request(session, host=hosts.get(a_), act='silent', timeout=3.0)
+                    if S['stop']:
+                        return
+                sleep(0.2)
+                if S['stop']:
+                    return
+                for a_ in ('127.0.0.3', '127.0.0.1'):
+                    request(session, host=hosts.get(a_), act=('hold', 0.3))
+                sleep(1.0)
+            elif flavour == 'requests':
                 for i in range(3):
                     request(session, act=('hold', 0.3 + 0.1 * i))
                     if S['stop']:
@@ -452,6 +466,8 @@ def run_history(seed, variant, k):
             # every other step: the shutdown call itself runs without being preempted (the thread it interrupted stays where it was until
             # shutdown blocks or returns); the other steps keep the seeded random interleaving of the shutdown call with the driver's threads
             ch.inner.p_preempt = 0.0
+        elif k < INF:
+            ch.inner.p_preempt = max(ch.inner.p_preempt, 0.25)      # the other steps: the shutdown call is interleaved with the driver's threads for real
         if k >= INF:
             # measuring run: the history ran to its end
             with w.inspect():
@@ -510,6 +526,13 @@ def run_history(seed, variant, k):
         except W.WorldHang as e:
             R['viol'].append(('shutdown-never-returns', "%s.shutdown() injected at step %d never returns: %s" % (target, k, e), {}))
             return R, env
+        except (W.WorldLimit, W.WorldKilled):
+            raise
+        except Exception as e:
+            # shutdown must not raise; what it left behind is judged as usual below
+            import traceback
+            R['viol'].append(('shutdown-raised', "%s.shutdown() injected at step %d raised %s: %s" % (target, k, type(e).__name__, str(e)[:160]),
+                              {'exception': type(e).__name__, 'where': [f.name for f in traceback.extract_tb(e.__traceback__)][-3:]}))
         S['returned'] = True
         with w.inspect():
             ret_conns = len(env.net.conns)
@@ -703,7 +726,7 @@ def run(ctx):
     from vlib.run import Inconclusive
     from sim.world import WorldLimit
     ctx.rule = ("a case is (history variant, injection step k): variant = what happens (reconnect / replace / control / requests / trash / "
-                "two_sessions / keyspace_sync / control_fail / trash_convict / trash_lenient / reconnect_cancel / control_sched) x protocol (v4 HostConnection, v2 HostConnectionPool) x which shutdown (Cluster / Session); for each variant all k in "
+                "two_sessions / keyspace_sync / control_fail / trash_convict / trash_lenient / reconnect_cancel / control_sched / requests3) x protocol (v4 HostConnection, v2 HostConnectionPool) x which shutdown (Cluster / Session); for each variant all k in "
                 "0..N are run (N = scheduling steps of the uninterrupted history); distinct by (variant, k); non-trivial = the cluster object existed "
                 "at step k")
     ctx.assume("requests that were in flight when shutdown was called are not judged (they carry finite timeouts); only a request issued after the call returned must not stay pending")
@@ -715,7 +738,7 @@ def run(ctx):
     first = [allv.index(('reconnect', 4, 'session')), allv.index(('control', 4, 'cluster')), allv.index(('replace', 2, 'cluster')),
              allv.index(('trash', 4, 'cluster')),
              allv.index(('keyspace_sync', 4, 'session')), allv.index(('reconnect_cancel', 4, 'cluster')), allv.index(('trash_convict', 4, 'cluster')),
-             allv.index(('control_fail', 4, 'cluster'))]
+             allv.index(('requests3', 4, 'session'))]
     if ctx.quick:
         first = first[:8]
     rest = [i for i in order if i not in first]
